@@ -97,3 +97,36 @@ def alac_stage_harnesses(sels=("SEL_WRITE", "SEL_READ", "SEL_SEEK")):
                          bounds="%d channel(s), frames per packet 8 (scaled down from 4096: the staging arithmetic is uniform in it), %d frames of the current packet already staged/consumed%s, one call of <= 4 items (symbolic values; position-distinct constants for the float/double writers); ALAC bit-stream library = contract stub; packet buffer 256 bytes/channel (hook)" % (
                              ch, p0, "" if ftb == 8 else " (packet holds %d frames)" % ftb)))
     return out
+
+
+def paf24_harnesses(sels=("SEL_READ", "SEL_WRITE")):
+    """PAF 24-bit block codec (harness/L3/paf24.c). NOT registered by any property: the measured runs (2 blocks, 4 items) gave no
+    verdict within 200-300 s for most configurations and the three that finished need triage (see DESIGN B.2)."""
+    out = []
+    for sel in sels:
+        for api in ("s", "i", "f", "d"):
+            for ch in (1, 2):
+                for be in (0, 1):
+                    variants = [("", {}), (".seek", {"WITH_SEEK": 1})] if sel == "SEL_READ" else [(".w%d" % w, {"W0": w}) for w in (0, 3, 9)]
+                    for vtag, vdef in variants:
+                        if ch == 2 and be == 1 and api in ("i", "d"):
+                            continue
+                        d = {sel: 1, "API_" + api: 1, "CH": ch, "BIGEND": be, "NB": 2, "LM": 4, "LIBSNDFILE_VERIF_BUFFER_LEN": 32, "MF_CAP": 96 * ch, "MF_MAXIO": 64,
+                             "SNP_MAX": 40, "PSF_MEMSET_MAX": 64, "MEMCPY_MAX": 80}
+                        d.update(vdef)
+                        isfloat = api in ("f", "d")
+                        if isfloat and sel == "SEL_WRITE":
+                            d["CONCRETE_VALUES"] = 1
+                        out.append(H("paf24.%s.%s.ch%d.%s%s" % (sel[4:].lower(), {"s": "short", "i": "int", "f": "float", "d": "double"}[api], ch, "be" if be else "le", vtag), "L3/paf24.c",
+                                     link=["common"], stubs=["psf_log_printf", "psf_memset"], defines=d, unwind=14,
+                                     unwindset=["psf_fread.0:65", "psf_fwrite.0:65", "snprintf.0:41", "snprintf.1:41", "main.0:%d" % (96 * ch + 2), "main.1:%d" % (96 * ch + 2), "main.2:%d" % (96 * ch + 2), "main.3:%d" % (96 * ch + 2), "memcpy.0:81", "memset.0:81",
+                                                "paf24_read_block.0:%d" % (10 * ch + 1), "paf24_write_block.0:%d" % (10 * ch + 1), "paf24_write_block.1:%d" % (10 * ch + 1), "endswap_int_array.0:%d" % (8 * ch + 1)],
+                                     checks="mem", fsa=200, solver="cadical" if isfloat else "default",
+                                     include_env=("log_stub", "memfile", "memset_model", "snprintf_model", "memcpy_model"), timeout=400,
+                                     # measured: the read side 6..30 s; the write side (pack + flush through the calloc'ed codec block) gave no verdict in 300 s:
+                                     # registered in no tier, PAF24 writes stay outside the claim
+                                     tiers=() if sel == "SEL_WRITE" else ("quick", "thorough") if (ch == 2 and be == 0) or (ch == 1 and be == 1 and api == "s") else ("thorough",),
+                                     functions=["paf24_init", "paf24_seek", "paf24_read_s/i/f/d", "paf24_write_s/i/f/d", "paf24_read", "paf24_write", "paf24_read_block", "paf24_write_block", "paf24_close"],
+                                     bounds="%d channel(s), %s-endian file, 2 blocks, one call of <= 4 items (symbolic%s), staging buffer 8 ints (hook)%s" % (
+                                         ch, "big" if be else "little", "; position-distinct constants for float/double writes" if isfloat and sel == "SEL_WRITE" else "", vtag)))
+    return out
